@@ -370,7 +370,6 @@ func (h *httproto) unpack(m erpc.Message, bb *utils.ByteBuffer) (size int, msg [
 			if err != nil {
 				return 0, nil, errBadHTTPMsg
 			}
-			size += bodySize
 			continue
 		}
 		if bytes.Equal(xContentEncodingBytes, a[0]) {
@@ -404,10 +403,12 @@ func (h *httproto) unpack(m erpc.Message, bb *utils.ByteBuffer) (size int, msg [
 	if bodySize <= 0 {
 		return size, msg, nil
 	}
-	// check the read limit before allocating the announced body size
-	if bodySize > math.MaxInt32 {
+	// check the read limit before allocating the announced body size;
+	// the body is counted once, whatever the header lines announced
+	if bodySize > math.MaxInt32 || size > math.MaxInt32 {
 		return 0, nil, socket.ErrExceedMessageSizeLimit
 	}
+	size += bodySize
 	if err = m.SetSize(uint32(size)); err != nil {
 		return 0, nil, err
 	}
